@@ -134,6 +134,13 @@ def build_project(strings, root, dumpdir):
             L.append("g_%s = generator(dump, output: '@BASENAME@_%s.gen', arguments: ['--dump=@OUTPUT@', %s, '@INPUT@'])" % (name, name, args))
             L.append("executable('e_%s', 'main.c', g_%s.process('g.in'))" % (name, name))
             plan.append(('gen', name, ch, None, {}))
+            # generator extra_args (spliced in for @EXTRA_ARGS@ after the generator's own rewrites: they arrive untouched),
+            # for a generator without and with a depfile
+            for dv, dkw in (('nodep', ''), ('dep', ", depfile: '@BASENAME@_x.d'")):
+                name = 'genx_%s_%s_%d' % (dv, fam, ci)
+                L.append("gx_%s = generator(dump, output: '@BASENAME@_%s.gen', arguments: ['--dump=@OUTPUT@', '@EXTRA_ARGS@', '@INPUT@']%s)" % (name, name, dkw))
+                L.append("executable('ex_%s', 'main.c', gx_%s.process('g.in', extra_args: [%s]))" % (name, name, args))
+                plan.append(('genx', name, ch, None, {}))
             # tests
             for proto in ('exitcode', 'tap', 'exitcode-workdir'):
                 name = 't_%s_%s_%d' % (proto.replace('-', '_'), fam, ci)
@@ -377,6 +384,19 @@ def run_project(job):
             args, _ = parse_dump(os.path.join(bdir, outp[0]))
             args = [x for x in args if not x.startswith(b'--dump=')][:-1]   # last one is @INPUT@
             compare('gen', name, given, [b(exp_command_arg(s)) for s in given], args)
+        elif kind == 'genx':
+            outp = [o for o in mf.producer if o.endswith('g_%s.gen' % name)]
+            if not outp:
+                viol('C03:genx:no-edge', 'no build statement for generator ' + name, None, None)
+                continue
+            e = mf.producer[outp[0]]
+            rr = rn.run_edge(e, bdir, env=sub_env)
+            if rr.rc != 0 or not os.path.exists(os.path.join(bdir, outp[0])):
+                viol('C03:genx:failed', '%s: edge failed: %s' % (name, rr.output[-300:]), given[:5], None)
+                continue
+            args, _ = parse_dump(os.path.join(bdir, outp[0]))
+            args = [x for x in args if not x.startswith(b'--dump=')][:-1]   # last one is @INPUT@
+            compare('generator-extra_args', name, given, [b(s) for s in given], args)
         elif kind == 'cc':
             tgt = [e for e in mf.edges if e.rule.name.startswith('c_COMPILER') and e.outs and e.outs[0].startswith(name + '.p/')]
             lnk = mf.edge_for(name)
